@@ -88,6 +88,32 @@ CHECKS["C19"] = dict(
          "under a serialising scheduler); evaluate_expression's busy-wait hand-shake is excluded; return values the documentation leaves "
          "open are not judged. One known finding is listed in KNOWN_FINDINGS.txt (line_step overruns by one instruction across a scope change).")
 
+CHECKS["C18"] = dict(
+    level="exploration", design="DESIGN.md §3 C18",
+    technique=TECH + ": seeded histories of real API calls over 1-3 instances with the virtual clock advanced between calls, judged by an API model (codes, cookies, idle state, carry-over)",
+    text="Seeded search over histories (<= 12 calls quick, <= 25 thorough) of the real exported functions over 1-3 instances: create (full, "
+         "basic), load_config, call with every type byte and inputs whose outcome is known by construction (clean, preprocess error, parse "
+         "error, runtime error early / as last statement / raised by an iteration behaviour / in a spawned script, non-terminating and cut "
+         "by the limit, sleepers, global set/get, config get, preprocess-only, parse-only, bad type, null and bogus handles, malformed "
+         "bytes), status, destroy. Judged: documented return code per class, every diagnostic of a call delivered with the instance's user "
+         "data and the call's call data, status 0 and no pending script / error flag after every call, globals and config persist per "
+         "instance and do not leak between instances, a clean call succeeds after any predecessor whatever the instance's age.",
+    note="Calls on destroyed handles are not generated (a dangling pointer cannot be recognised by this API); the return code of exit__ is "
+         "not judged; load_config has no call_data, only user_data is checked there.")
+CHECKS["C10"] = dict(
+    level="fault_enumeration", design="DESIGN.md §3 C10",
+    technique=TECH + ": stored source bytes cut or damaged at every point (all prefixes, every single-token deletion / duplication / opener replacement), include cycles over a scratch directory, delivered through every front-end entry point; result-xor-diagnostic, no crash, no hang, repeatable",
+    text="For each sampled well-formed input (SQF printed from generated programs, config text, preprocessor input) the check enumerates "
+         "EVERY prefix and single-token deletions, duplications and replacements by an opener (quotes, comment openers, brackets, #, "
+         "backslash, NUL), plus nesting depth 1..200, self/mutual macro recursion, unterminated constructs at end of input and self / "
+         "mutual / missing / empty / cut / directory #include over a real scratch tree. Each damaged text goes through one seeded entry: "
+         "preprocessor, SQF parser, config parser (parse and check_syntax), the operators compile / preprocess__ / configparse__ / "
+         "preprocessFile from a running script, sqfvm_call (s, p) and sqfvm_load_config. Judged: returns within the budget; a result or at "
+         "least one error-level diagnostic; no signal, sanitizer report or escaping C++ exception; identical history when executed twice.",
+    note="Claimed for damage of stored sources and include/macro cycles (the fault model); arbitrary byte strings are only sampled lightly. "
+         "Prefix enumeration is complete per sampled input, token damage is capped per input in the quick tier; inputs are sampled. Time "
+         "proportionality is judged as 'within the step / 10 s watchdog budget for inputs < 2 KiB'.")
+
 NOT_APPLICABLE = {
     "C01": "pure function of source text and operator registry; a compile is one atomic instruction, so there is no schedule, clock, fault or carried state to simulate",
     "C06": "str/literal/pretty-printer round trips are pure functions of one value or text; nothing to simulate",
